@@ -9,7 +9,8 @@ EXTENDS Integers, Sequences, FiniteSets
 
 \* registration order of the built-in types = type_index
 TypeSeq == <<"NoneGridObject", "Hidden", "Floor", "Wall", "Exit", "Door",
-             "Key", "MovingObstacle", "Box", "Telepod", "Beacon">>
+             "Key", "MovingObstacle", "Box", "Telepod", "Beacon",
+             "Coin">>   \* Coin: the custom object of examples/coin_env.py (registered when that module is imported)
 Types == {TypeSeq[i] : i \in 1..Len(TypeSeq)}
 TypeIndex(t) == CHOOSE i \in 0..(Len(TypeSeq) - 1) : TypeSeq[i + 1] = t
 NumStates(t) == IF t = "Door" THEN 3 ELSE 1
